@@ -31,6 +31,11 @@ fixed += [
     mg.default_cfg("lc_pkpi_hel", align="dpd2", dyn="bw"),
     mg.default_cfg("d0_k3pi_hel", dyn="bwff"),
     mg.default_cfg("jpsi_3pi_hel", permutate=True, dyn="custom"),
+    # a SINGLE stable final state under DPD with mass-dependent lineshapes (m_i must not be parameter and variable at once)
+    mg.default_cfg("jpsi_ksp_can", align="dpd1", stable=[2], dyn="bwff"),
+    mg.default_cfg("jpsi_ksp_can", align="dpd2", stable=[3], dyn="bwff", scalar_m0=True),
+    mg.default_cfg("jpsi_ksp_can", align="dpd3", stable=[1], dyn="bwff"),
+    mg.default_cfg("jpsi_gpipi_can", dyn="bwff", stable=[1], dyn_names=["J/psi(1S)", "f(0)(980)"]),
 ]
 small_for_aa = {"jpsi_gpipi_hel", "jpsi_gpipi_can", "etac_ll_hel", "etac_ll_can", "jpsi_ppbar_hel",
                 "jpsi_pipi_2body_hel", "d0_kkk_hel", "psi2s_jpsipipi_hel", "jpsi_ksp_hel", "lc_pkpi_hel"}
